@@ -14,7 +14,7 @@ from harness.lib import producer_gen as G
 
 COMPONENTS = ["producer"]
 MONITORS = {
-    "C01": ["c01-once", "c01-acked", "c01-acks0", "c01-emptyanswer", "c01-payloads", "c01-resolved"],
+    "C01": ["c01-once", "c01-acked", "c01-acks0", "c01-emptyanswer", "c01-payloads", "c01-resolved", "c01-dropped"],
     "C09": ["c09-order", "c09-onebatch", "c09-retry", "c09-reported", "c09-attempts", "c09-geometric"],
     "C19": ["c19-accounting", "c19-dispatch", "c19-cancel", "c19-detach", "c19-stop", "c19-schedule"],
 }
@@ -25,6 +25,7 @@ WHAT = {
     "c09-reported": "an answer of the client acknowledged a payload (error 0) but a send riding on it was not fired `ok` with that response in the same step; or the answer ended the batch (attempts used up / not a Kafka error) and a send on a failed payload was not failed with that error",
     "c01-acks0": "with req_acks=0 a send failed with NoResponseError although the request was handed over",
     "c01-payloads": "a produce payload is not made of whole, distinct sends of its topic, or its messages (key, size, order) are not exactly those sends' messages",
+    "c01-dropped": "a send left _outstanding in a step in which its Deferred did not fire",
     "c01-resolved": "a batch resolved while one of its sends had not fired (sends of a batch for which the client did not account for every payload are exempt - that batch only)",
     "c09-order": "per-partition submission order violated in a produce request",
     "c09-onebatch": "a first-attempt produce request was made while the previous produce request was unanswered, or while an earlier batch was unresolved (or a retry carried foreign sends)",
@@ -38,6 +39,9 @@ WHAT = {
     "c19-stop": "stop() left a send outstanding, failed it with a non-cancellation error, or something was transmitted in/after stop(); or after stop() something was queued/outstanding, or a send_messages was not refused at once with CancelledError",
     "reentrant-tx-after-stop": "a produce or metadata request was issued after a stop() made by a callback of a send Deferred had returned",
     "success-never-sent": "a send Deferred succeeded although no produce request ever carried the send (ground truth of the scripted harness; with re-entrant callbacks the flat truthfulness monitor is not evaluated)",
+    "escaped-exception": "an exception escaped a public call (send_messages / cancel / stop) or a timer callback of the Producer instead of being reported through the send's Deferred: whatever the call had taken out of the queue is neither transmitted nor failed",
+    "c19-idleq": "after a step (re-entrant calls from callbacks of send Deferreds included) the producer was left with no batch in flight and a non-empty queue over the count or byte threshold: queued messages were not dispatched the moment the batch in flight resolved",
+    "trace-unparseable": "the implementation's trace could not be read by the monitors (a produce payload that is not made of whole sends, a request made with other arguments than the configured acks/timeout/fail_on_error, an observation the model does not know)",
     "c19-schedule": "the batch_every_t looping call did not tick on its schedule (start+k*T, late calls collapsed, never while not due / stopped), or something else ran while a tick was overdue",
 }
 CORPUS = os.path.join(core.VERIF, "corpus", "producer")
@@ -57,6 +61,9 @@ ASSUMPTIONS = {
 
 
 REENTRANT_MONITORS = ["c01-once"]
+# … and, for C19, the one clause of the dispatch monitor that looks at the bookkeeping AFTER a step only: never idle with a
+# non-empty queue over a threshold (C19_never_idle_over_threshold; Afkak/Monitor/C19Idle.lean)
+REENTRANT_EXTRA = {"C19": ["c19-idleq"]}
 
 
 def has_hooks(real):
@@ -79,7 +86,9 @@ def trace_lines(real, monitors):
         if line.startswith("sendh "):
             line = "send " + " ".join(line.split(" ")[1:5])
         tl.append("> " + line)
-        tl += [o for o in obs if not (o.startswith("hookbegin ") or o == "hookend")]
+        # (an exception that escaped the implementation is not an observation the monitors know: they see the rest of
+        # the step and the bookkeeping as the exception left it; the harness reports it as `escaped-exception`)
+        tl += [o for o in obs if not (o.startswith("hookbegin ") or o == "hookend" or o.startswith("impl-raised "))]
         tl.append(st)
     tl.append("trace-end " + " ".join(monitors))
     return tl
@@ -98,7 +107,8 @@ def evaluate(pid, runs, model=core.run_model, monitors=None):
         k += n
     tl, ends, used = [], [], []
     for scn, real, _d, _f in out:
-        mons = (MONITORS[pid] if monitors is None else monitors) if not has_hooks(real) else REENTRANT_MONITORS
+        mons = ((MONITORS[pid] if monitors is None else monitors) if not has_hooks(real)
+                else REENTRANT_MONITORS + REENTRANT_EXTRA.get(pid, []))
         if getattr(real, "sync_count", 0):
             # a synchronous answer of the client is handled inside the reactor call that made the request (a timer, a
             # tick): `scheduleFrom` ("while a tick is overdue nothing happens but timers firing") is an assumption on
@@ -113,13 +123,17 @@ def evaluate(pid, runs, model=core.run_model, monitors=None):
         got = ans2[e]
         if got == ["bad-op"] or len(got) != len(mons):
             odd = [o for s in real.steps for o in s[1] if "=?" in o or "BADARGS" in o]
-            item[3] = ["c01-payloads"] if (odd and pid == "C01") else ([] if odd else ["trace-unparseable"])
+            # (a payload the harness could not segment into sends / a request made with other arguments than the
+            # configured ones: C01's payload monitor for C01; for C09/C19 the trace cannot be judged - reported, not dropped)
+            item[3] = ["c01-payloads"] if (odd and pid == "C01") else ["trace-unparseable"]
         else:
             item[3] = [l.split(" ")[0] for l in got if not l.endswith(" ok")]
         if getattr(real, "tx_after_stop", None):
             item[3].append("reentrant-tx-after-stop")
         if getattr(real, "success_never_sent", None):
             item[3].append("success-never-sent")
+        if getattr(real, "escaped", False):
+            item[3].append("escaped-exception")
     return out
 
 
@@ -193,6 +207,16 @@ def features(scn, real, hist):
     if getattr(real, "sync_count", 0):
         flags.add("sync-answer")
         hist["ev:prodone-synchronous"] += real.sync_count
+        if has_hooks(real):
+            flags.add("sync-answer-with-callbacks")
+            # … and a callback really ran inside the step that handles a synchronous answer
+            for i, (line, obs, _st) in enumerate(real.steps):
+                if line.startswith("prodone ") and any(o.startswith("hookbegin ") for o in obs) and i > 0 \
+                        and any(o.startswith("produce ") for o in real.steps[i - 1][1]):
+                    flags.add("callback-inside-sync-completion")
+                    break
+    if getattr(real, "escaped", False):
+        flags.add("escaped-exception")
     for f in flags:
         hist["scn:" + f] += 1
     return flags
@@ -420,6 +444,14 @@ def corpus(pid, res):
             res.evaluations += 1
             continue
         scn = {"cfg": data["cfg"], "events": data["events"]}
+        if data.get("encode_fails"):
+            real, fails = run_encode_failure(pid, scn)
+            res.evaluations += 1
+            for m in fails:
+                res.monitor_failures.append({"what": "codec not available: " + WHAT.get(m, m), "scenario": data, "monitor": m,
+                                             "tags": [m, "encode-failure:" + m],
+                                             "impl_trace": [[s[0]] + s[1] + [s[2]] for s in real.steps]})
+            continue
         runs.append((scn, D.run_real(scn)))
     t = Tally()
     check_batch(pid, runs, t, do_shrink=False)
@@ -454,8 +486,78 @@ def scripted(ctx, res, pid, n_quick, n_thorough):
         merge(res, t)
 
 
+class raising_encoder(object):
+    """the message sets cannot be built: `create_message_set` (as the Producer imported it) raises for codec 2"""
+
+    def __enter__(self):
+        import afkak.producer as AP
+
+        self.AP, self.orig = AP, AP.create_message_set
+        orig = self.orig
+
+        def raising(requests, codec=0, *a, **kw):
+            if codec == 2:
+                raise NotImplementedError("Snappy codec is not available")
+            return orig(requests, codec, *a, **kw)
+
+        AP.create_message_set = raising
+        return self
+
+    def __exit__(self, *exc):
+        self.AP.create_message_set = self.orig
+        return False
+
+
+def run_encode_failure(pid, scn):
+    """one scenario of the encode-failure stage: the real Producer only, monitors without the model diff"""
+    scn = {"cfg": scn["cfg"], "events": scn["events"]}
+    with raising_encoder():
+        real = D.run_real(scn)
+        _scn, real, _d, fails = evaluate(pid, [(scn, real)])[0]
+    if any(o.startswith("produce ") for s in real.steps for o in s[1]):
+        fails = fails + ["encfail-transmitted"]
+    return real, fails
+
+
+def encode_failure_stage(ctx, res, pid):
+    """BEYOND-MODEL stage (audit round 2, C01-1; F32): the message sets of a batch cannot be BUILT - the configured
+    codec is not available (codec=CODEC_SNAPPY without the snappy library, which the constructor accepts), an encoder
+    raises.  The model has no such input (its `_send_requests` is total), so model and code are not diffed here; the
+    monitors (which need no model) are evaluated on the traces of the real Producer: every send of the batch must fire
+    (c01-resolved, c01-dropped), once (c01-once), nothing is left idle over a threshold (c19-dispatch), the
+    accounting holds, nothing is transmitted.  Scenarios: the scripted generator with codec 2 (encoder forced to
+    raise whether or not a snappy library is installed)."""
+    n = ctx.scale(250, 6000)
+    rng = random.Random(ctx.rng.randrange(1 << 30))
+    t = Tally()
+    with raising_encoder():
+        runs = []
+        for _ in range(n):
+            cfg = G.gen_cfg(rng, pid)
+            cfg["codec"] = 2
+            runs.append(G.gen_scenario(rng, pid, cfg=cfg, hooks=0.0))
+        for scn, real, _d, fails in evaluate(pid, runs):
+            t.evaluations += 1
+            t.hist["encfail:scenarios"] += 1
+            nf = sum(1 for s in real.steps for o in s[1] if o.startswith("fire ") and "NotImplementedError" in o)
+            t.hist["encfail:sends-failed-with-the-encoder's-exception"] += nf
+            if any(o.startswith("produce ") for s in real.steps for o in s[1]):
+                fails = fails + ["encfail-transmitted"]
+            for m in fails:
+                if sum(1 for f in t.failures if f["monitor"] == m) >= 2:
+                    continue
+                t.failures.append({
+                    "monitor": m, "what": "codec not available (message sets cannot be built): " + WHAT.get(m, m),
+                    "scenario": dict(scn, encode_fails=True),
+                    "impl_trace": [[s[0]] + s[1] + [s[2]] for s in real.steps],
+                    "tags": [m, "encode-failure:" + m],
+                })
+    merge(res, t)
+
+
 def run(ctx, res, pid):
     scripted(ctx, res, pid, n_quick=5000, n_thorough=240000)
+    encode_failure_stage(ctx, res, pid)
     try:
         from harness.lib import producer_fullstack as FS
     except ImportError:
@@ -523,6 +625,16 @@ def replay(ctx, data, pid):
     if scn is None or "cfg" not in scn:
         print("replay: no producer scenario in this file:", json.dumps(data)[:400])
         return 2
+    if scn.get("encode_fails"):
+        real, fails = run_encode_failure(pid, scn)
+        print("replay (encode-failure stage: the message sets cannot be built; no model diff): cfg", json.dumps(scn["cfg"]))
+        for line, obs, st in real.steps:
+            print("  > %s\n      impl : %s" % (line, " | ".join(obs + [st])))
+        print("monitors failing on the implementation trace:", fails or "none")
+        if fails:
+            print("VIOLATION property=%s replay=(this file)" % pid)
+            return 1
+        return 0
     scn, real, d, fails = run_one(pid, scn)
     ans = core.run_model("producer", D.model_requests(real))
     print("replay: cfg", json.dumps(scn["cfg"]))
